@@ -441,6 +441,29 @@ fn exec_typed<T: Elem + Clone + Default, N: ArrayLength>(case: &Case, acc: &mut 
                     drop(a);
                     0u8
                 })),
+                // owned receiver, borrowed argument: the provided (default) inverted_zip body
+                3 => {
+                    let other = other;
+                    drop(arr.zip(&other, |a, b| {
+                        b.get();
+                        drop(a);
+                        0u8
+                    }))
+                }
+                4 => {
+                    let mut other = other;
+                    drop(arr.zip(&mut other, |a, b| {
+                        b.get();
+                        drop(a);
+                        0u8
+                    }))
+                }
+                // borrowed receiver, owned argument
+                5 => drop((&arr).zip(other, |a, b| {
+                    a.get();
+                    drop(b);
+                    0u8
+                })),
                 _ => drop(Box::new(arr).zip(Box::new(other), |a, b| {
                     drop(a);
                     drop(b);
@@ -514,7 +537,7 @@ fn whole_ops(n: usize) -> Vec<Op> {
         v.push(Op::MapDrop(f));
         v.push(Op::FoldArrDrop(f));
     }
-    for f in 0..3u8 {
+    for f in 0..7u8 {
         v.push(Op::ZipDrop(f));
     }
     v.push(Op::ZipMixedDrop(0));
@@ -607,7 +630,7 @@ fn random_strategy() -> impl Strategy<Value = Case> {
             35 => Op::FoldArrDrop(3),
             36 => Op::ZipDrop(0),
             37 => Op::ZipDrop(1),
-            38 => Op::ZipDrop(2),
+            38 => Op::ZipDrop((es % 7) as u8),
             39 if es % 2 == 0 => Op::ZipMixedDrop((es % 4 / 2) as u8),
             _ => Op::TryFromVecWrongLen,
         };
@@ -648,7 +671,7 @@ pub fn main() {
             level: "fault_enumeration",
             rule: "case = (operation, N, iterator position (front, back), argument, the single element e whose destructor panics once). \
                    Enumerated completely for N in 0..=nmax: iterator drop/nth(a)/nth_back(a)/count/last/fold/rfold/for-loop/clone-drop/clone_from (as destination, source in three positions) from every (front, back) with every a in 0..=len+2 and usize::MAX and every e in the live range; \
-                   element kinds: 24-byte, 96-byte and zero-sized drop-tracked; whole-value operations (array, Box, nested array drop; clone_from into an array / boxed array; zips of a plain array with a tracked one; too-short/too-long collect, stack and boxed; builder/consumer dropped at every position; map/zip/fold whose closure drops its argument) with every e. Larger N sampled with proptest. \
+                   element kinds: 24-byte, 96-byte and zero-sized drop-tracked; whole-value operations (array, Box, nested array drop; clone_from into an array / boxed array; zips of a plain array with a tracked one; too-short/too-long collect, stack and boxed; builder/consumer dropped at every position; map/zip/fold whose closure drops its argument - zip in owned x owned, owned x &, owned x &mut, & x owned and boxed forms) with every e. Larger N sampled with proptest. \
                    After the panic is caught the caller keeps using the iterator (drains it from both ends), so a stale read is observed, not just a second drop. \
                    Oracle: per-element drop count <= 1, no observation after drop, no garbage drop; leaks are allowed and only counted. \
                    non-trivial = the chosen destructor actually ran and panicked inside the operation; distinct = distinct case tuples",
